@@ -408,7 +408,11 @@ def _richardson(c, inst, t, h):
     L = inst["levels"]
     p = int(base.__order__)
     symp = issubclass(base, I.ExplicitSymplecticIntegrator)
+    # (other wrappers of the same method were requested earlier in this process: the default 2-level one and a deeper one)
+    I.generate_richardson_integrator(base)
+    I.generate_richardson_integrator(base, richardson_iter=L + 1)
     RI = I.generate_richardson_integrator(base, richardson_iter=L)
+    c.check("c01.richardson_wrapper_has_requested_levels", int(RI((1,), dtype=np.dtype(np.float64)).richardson_iter) == L if hasattr(RI((1,), dtype=np.dtype(np.float64)), "richardson_iter") else True)
     orders = list(range(1, p + 1)) + ([p + 1] if L >= 3 else [])
     c.assume(h * h <= 1.0 / 16)
     for n in orders:
